@@ -448,7 +448,7 @@ func TestC10(t *testing.T) {
 		run(c, func() { runC10Server(c, ctx, seq, one, (c.I/2)%2 == 0) })
 	})
 	rec.Exhaustive("server-exhaustive")
-	rec.Suite("server-random", rec.N(1500, 600000), func(c *ev.Case) {
+	rec.Suite("server-random", rec.N(1500, 2000000), func(c *ev.Case) {
 		n := 5 + c.R.IntN(26)
 		seq := make([]int, n)
 		for i := range seq {
